@@ -22,6 +22,11 @@ REAL_PL = ["pipeline.BlockPipeline, worker pools, decode stage, apply stage and 
 STUB_PL = ["clock (testing/synctest)", "Go scheduler decisions (verifsimrt)", "application (submitters, ApplyFunc, result/error drainers)"]
 
 PROPS = {
+ "C46": P([("auth", 1)], 4000, 200000,
+          "one evaluation = one simulated run of one shared MessageAuthenticator (real Ed25519, Blake2b and KES verification; KES verifier injected through the library's SetKESVerifier seam, absent, or absent with insecure mode) called from 2-6 tasks with up to 36 operations: VerifyMessage of genuinely signed messages of 3 pools with certificate counters 0-3 and single-field corruptions (id, cold signature, KES signature, payload), RegisterSPOPool, UnregisterSPOPool, RemoveKESOpCertCacheEntry, with a yield at every lock and atomic; the invoke/return history (event sequence numbers) is checked for linearizability against a sequential model with porcupine; distinct = distinct schedule hash; non-trivial = at least one message was accepted",
+          ["auth.message-accepted"], expect=["auth.message-accepted", "auth.verifier-mode-0", "auth.verifier-mode-4"],
+          real=["protocol/common.MessageAuthenticator", "kes (sign/verify)", "crypto/ed25519, blake2b", "cbor"], stubs=["Go scheduler decisions (verifsimrt)", "clock (testing/synctest)", "callers (harness tasks)"],
+          assumptions=["porcupine v1.3.0 decides linearizability of histories of at most 36 operations; no timeout is used, so no run is inconclusive"]),
  "C42": P([("pipeline", 1)], 1600, 60000, PL_RULE + "non-trivial = the run was fully checked after draining, or Stop landed during submissions",
           ["pl.full-run-checked", "pl.stop-during-submissions"], real=REAL_PL, stubs=STUB_PL, assumptions=["validation stage is not enabled (it needs epoch nonce and KES parameters that match the fixture blocks)"]),
  "C43": P([("pipeline", 1)], 1600, 60000, PL_RULE + "non-trivial = a WaitForDrain call returned nil and was compared with the apply log",
